@@ -383,6 +383,13 @@ func (g *cfgGen) alternatives(ann, mdl string, cur *cfgStruct) []cfgAlt {
 	add(cfgAltDel("S", "Name"), cfgAlt1("S", "Name", cfgS("")), cfgAlt1("S", "Name", cfgI(42)), cfgAlt1("S", "Name", cfgS("Other-Name_2")), cfgAlt1("S", "Name", cfgS("slash/name")))
 	add(cfgAlt1("S", "RunNumber", cfgI(0)), cfgAlt1("S", "RunNumber", cfgI(1)), cfgAlt1("S", "RunNumber", cfgI(2)), cfgAlt1("S", "RunNumber", cfgI(3)), cfgAlt1("S", "RunNumber", cfgI(-1)),
 		cfgAlt1("S", "RunNumber", cfgS("NAN")), cfgAlt1("S", "RunNumber", cfgF(1500)))
+	// both sides of the bound checkMandatoryFields puts on RunNumber (2^31 - 1, the sync.WaitGroup counter) and values far from
+	// it; accepted ones above cfgRunLimit are never run (cfgTooLongToRun): only their accept/reject verdict is compared.
+	// The negatives are ones whose low 32 bits are negative too: in a tree without the bound they panic at once in
+	// WaitGroup.Add instead of looping over 2^63 runs.
+	for _, n := range []int64{-2, -1000000, 1000000, 1000001, cfgMaxRunNumber - 1, cfgMaxRunNumber, cfgMaxRunNumber + 1, 1<<32 + 1, 1<<63 - 1} {
+		add(cfgAlt1("S", "RunNumber", cfgI(n)))
+	}
 	add(cfgAlt1("S", "MaximumConcurrentRunNumber", cfgI(0)), cfgAlt1("S", "MaximumConcurrentRunNumber", cfgI(1)), cfgAlt1("S", "MaximumConcurrentRunNumber", cfgI(2)),
 		cfgAlt1("S", "MaximumConcurrentRunNumber", cfgI(-1)), cfgAlt1("S", "MaximumConcurrentRunNumber", cfgS("two")))
 	add(cfgAltDel("S", "OutputPath"), cfgAlt1("S", "OutputPath", cfgS("")), cfgAlt1("S", "OutputPath", cfgP("exists")), cfgAlt1("S", "OutputPath", cfgP("nested")),
@@ -390,7 +397,8 @@ func (g *cfgGen) alternatives(ann, mdl string, cur *cfgStruct) []cfgAlt {
 	add(cfgAlt1("S", "OutputType", cfgS("CSV")), cfgAlt1("S", "OutputType", cfgS("JSON")), cfgAlt1("S", "OutputType", cfgS("XML")), cfgAlt1("S", "OutputType", cfgS("csv")),
 		cfgAlt1("S", "OutputType", cfgI(42)), cfgAlt1("S", "OutputType", cfgS("")))
 	add(cfgAlt1("S", "OutputLevel", cfgS("Summary")), cfgAlt1("S", "OutputLevel", cfgS("Detail")), cfgAlt1("S", "OutputLevel", cfgS("Verbose")), cfgAlt1("S", "OutputLevel", cfgB(true)))
-	add(cfgAlt1("S", "CpuProfilePath", cfgP("prof")), cfgAlt1("S", "CpuProfilePath", cfgP("noprofdir")), cfgAlt1("S", "CpuProfilePath", cfgS("")), cfgAlt1("S", "CpuProfilePath", cfgI(42)))
+	add(cfgAlt1("S", "CpuProfilePath", cfgP("prof")), cfgAlt1("S", "CpuProfilePath", cfgP("noprofdir")), cfgAlt1("S", "CpuProfilePath", cfgS("")), cfgAlt1("S", "CpuProfilePath", cfgI(42)),
+		cfgAlt1("S", "CpuProfilePath", cfgP("nested")), cfgAlt1("S", "CpuProfilePath", cfgP("dir")), cfgAlt1("S", "CpuProfilePath", cfgP("file")))
 	add(cfgAlt1("S", "Bogus", cfgI(1)), cfgAlt1("S", "Reportin", cfgS("x")), cfgAlt1("S", "UserDetail", cfgS("notATable")))
 	add(cfgAlt1("SU", "TextEntry", cfgS("SomeText")), cfgAlt1("SU", "IntegerEntry", cfgI(42)), cfgAlt1("SU", "FloatEntry", cfgF(42420)), cfgAlt1("SU", "BooleanEntry", cfgB(true)), cfgAlt1("SU", "TableEntry", cfgT()))
 	// ---- Reporting
@@ -808,6 +816,29 @@ func cfgPanicCandidates(pl string) []string {
 	return out
 }
 
+// cfgErrorCandidates does the same for an error value Run() returned without starting a run.
+func cfgErrorCandidates(detail string) []string {
+	if !strings.Contains(detail, "creation of cpu profiling file failed") {
+		return nil
+	}
+	if strings.Contains(detail, "is a directory") {
+		return []string{"CpuProfilePathIsDirectory"}
+	}
+	return []string{"CpuProfilePathNotCreatable"} // no such file or directory / not a directory: the parent is missing
+}
+
+// cfgMaxRunNumber is the bound crem's checkMandatoryFields puts on Scenario.RunNumber (math.MaxInt32).
+const cfgMaxRunNumber = int64(1<<31 - 1)
+
+// cfgRunLimit: an accepted configuration asking for more runs than this is a BOUNDARY case, too long to run;
+// Driver/Config.lean `runLimit` is the same number (the `notrun` line is compared).
+const cfgRunLimit = 1000
+
+func cfgTooLongToRun(c *cfgStruct) bool {
+	v, ok := c.get("S", "RunNumber")
+	return ok && v.kind == 'i' && v.i > cfgRunLimit
+}
+
 // ---------------------------------------------------------------- Lean pre-pass
 
 // cfgModelPredictions runs the compiled Lean driver over `pred` lines and returns its answers:
@@ -815,6 +846,7 @@ func cfgPanicCandidates(pl string) []string {
 type cfgModelPred struct {
 	accepts, safe bool
 	must, may     []string
+	fixed         []string // findings that hold syntactically but whose repair is declared
 	raw           string
 }
 
@@ -866,6 +898,8 @@ func cfgModelPredictions(envLines []string, cfgs []*cfgStruct) ([]cfgModelPred, 
 				p.must = cfgSplitList(w[5:])
 			case strings.HasPrefix(w, "may="):
 				p.may = cfgSplitList(w[4:])
+			case strings.HasPrefix(w, "fixed="):
+				p.fixed = cfgSplitList(w[6:])
 			}
 		}
 		if !strings.Contains(l, "accepts=") {
@@ -954,7 +988,9 @@ func suiteConfig(c *Ctx) {
 
 	// ---- data facts: limit zones of the shipped data sets, from the real model
 	g := &cfgGen{zones: map[string][]cfgZone{}}
-	// which repairs are DECLARED to be in the tree (checkprops.py: "args": ["repairs=reportEveryChecked,..."]);
+	// which repairs are DECLARED to be in the tree (checkprops.py: "args": ["repairs=reportEveryChecked,..."]; names as the
+	// fields of `Repairs` in Crem/Model/Config.lean: reportEveryChecked objectiveChecked loopInvariantGuarded concurrencyCapped
+	// runNumberBounded outputPathChecked cpuProfilePathChecked);
 	// the Lean model transcribes the repaired code for those; a wrong declaration is a correspondence mismatch
 	repairs := "-"
 	for _, a := range c.Args {
@@ -1031,6 +1067,7 @@ func suiteConfig(c *Ctx) {
 		line string
 	}
 	var toRun []pending
+	tooLong := 0
 	rr := c.Rng.Fork()
 	verdicts := make([]cfgGoVerdict, len(cases))
 	for i, cs := range cases {
@@ -1051,11 +1088,10 @@ func suiteConfig(c *Ctx) {
 		if v.load == "panic" || v.interp == "panic" {
 			cand := cfgPanicCandidates("panic: " + v.panicText)
 			sig := "config:unexplained-crash"
-			for _, p := range cand {
-				if cfgContains(preds[i].must, p) || cfgContains(preds[i].may, p) {
-					sig = "config:" + p
-					break
-				}
+			if e, rec := cfgExplain(cand, preds[i]); e != "" {
+				sig = "config:" + e
+			} else if rec != "" { // the declared repair is not effective
+				sig = "config:" + rec
 			}
 			c.Fail("C19:load-and-interpret-never-panic", sig, "panic while loading/interpreting: "+v.panicText+"\n"+text, []string{"cfg " + line})
 		}
@@ -1063,8 +1099,19 @@ func suiteConfig(c *Ctx) {
 			c.Fail("harness:section-verdicts", "config:section-verdicts-inconsistent", v.interp+"\n"+text, []string{"cfg " + line})
 		}
 		if v.accepted {
+			if cfgTooLongToRun(cs.c) {
+				// BOUNDARY: accepted, but far too many runs to execute; only the accept/reject verdict above is compared
+				c.Op("notrun "+line, "boundary:too-long-to-run")
+				c.Stat("outcome not-run(boundary: RunNumber too large to run)")
+				tooLong++
+				continue
+			}
 			toRun = append(toRun, pending{i, line})
 		}
+	}
+	c.extra["accepted_not_run_too_many_runs"] = tooLong
+	if tooLong > 0 {
+		c.Note(fmt.Sprintf("BOUNDARY: %d accepted configuration(s) with RunNumber > %d (probes next to the 2^31-1 bound) were not run - too long to run; only their accept/reject verdict was compared", tooLong, cfgRunLimit))
 	}
 
 	watching.Store(false)
@@ -1164,27 +1211,32 @@ func suiteConfig(c *Ctx) {
 				verdict = "ok"
 			}
 		case "panic", "run-failed-error":
-			explained := ""
-			for _, cand := range cfgPanicCandidates(o.panicLine) {
-				if cfgContains(pr.must, cand) || cfgContains(pr.may, cand) {
-					explained = cand
-					break
-				}
-			}
-			if explained == "" {
-				verdict = "unexplained"
-				c.Fail("C19:accepted-configuration-runs-to-completion", "config:unexplained-crash",
-					fmt.Sprintf("%s\nmodel: %s\n%s\n%s", o.panicLine, pr.raw, texts[k], o.detail), ops)
-			} else {
+			explained, recurred := cfgExplain(cfgPanicCandidates(o.panicLine), pr)
+			switch {
+			case explained != "":
 				verdict = "explained:" + explained
 				c.Fail("C19:accepted-configuration-runs-to-completion", "config:"+explained,
 					fmt.Sprintf("%s\n%s", o.panicLine, texts[k]), ops)
+			case recurred != "":
+				verdict = "recurred:" + recurred
+				c.Fail("C19:accepted-configuration-runs-to-completion", "config:"+recurred,
+					fmt.Sprintf("the repair declared for this finding is not effective\n%s\nmodel: %s\n%s", o.panicLine, pr.raw, texts[k]), ops)
+			default:
+				verdict = "unexplained"
+				c.Fail("C19:accepted-configuration-runs-to-completion", "config:unexplained-crash",
+					fmt.Sprintf("%s\nmodel: %s\n%s\n%s", o.panicLine, pr.raw, texts[k], o.detail), ops)
 			}
 		case "error-value":
-			if cfgContains(pr.must, "CpuProfilePathNotCreatable") {
-				verdict = "explained:CpuProfilePathNotCreatable"
-				c.Fail("C19:accepted-configuration-runs-to-completion", "config:CpuProfilePathNotCreatable", o.detail+"\n"+texts[k], ops)
-			} else {
+			explained, recurred := cfgExplain(cfgErrorCandidates(o.detail), pr)
+			switch {
+			case explained != "":
+				verdict = "explained:" + explained
+				c.Fail("C19:accepted-configuration-runs-to-completion", "config:"+explained, o.detail+"\n"+texts[k], ops)
+			case recurred != "":
+				verdict = "recurred:" + recurred
+				c.Fail("C19:accepted-configuration-runs-to-completion", "config:"+recurred,
+					"the repair declared for this finding is not effective\n"+o.detail+"\nmodel: "+pr.raw+"\n"+texts[k], ops)
+			default:
 				verdict = "run-error"
 				c.Fail("C19:accepted-configuration-runs-to-completion", "config:run-error", o.detail+"\n"+texts[k], ops)
 			}
@@ -1200,7 +1252,10 @@ func suiteConfig(c *Ctx) {
 		}
 		pc := "-"
 		if o.class == "error-value" {
-			pc = "CpuProfilePathNotCreatable"
+			pc = strings.Join(cfgErrorCandidates(o.detail), ",")
+			if pc == "" {
+				pc = "other"
+			}
 		}
 		if o.class == "panic" || o.class == "run-failed-error" {
 			pc = strings.Join(cfgPanicCandidates(o.panicLine), ",")
@@ -1227,6 +1282,22 @@ func suiteConfig(c *Ctx) {
 	if c.Replay == "" {
 		cfgMalformedStream(c)
 	}
+}
+
+// cfgExplain: the first candidate finding (from the failure text) that the model found to hold of the configuration;
+// failing that, the first one that holds syntactically although its repair is declared (a recurrence).
+func cfgExplain(cands []string, pr cfgModelPred) (explained, recurred string) {
+	for _, cand := range cands {
+		if cfgContains(pr.must, cand) || cfgContains(pr.may, cand) {
+			return cand, ""
+		}
+	}
+	for _, cand := range cands {
+		if cfgContains(pr.fixed, cand) {
+			return "", cand
+		}
+	}
+	return "", ""
 }
 
 func cfgVerdictClass(v cfgGoVerdict) string {
@@ -1366,9 +1437,15 @@ func cfgGenerateCases(c *Ctx, g *cfgGen) []cfgCase {
 				cc.del("SRL", "Annealing")
 			})
 			t("negative-run-number", func(cc *cfgStruct) { cc.set("S", "RunNumber", cfgI(-1)) })
+			t("negative-run-number-2", func(cc *cfgStruct) { cc.set("S", "RunNumber", cfgI(-2)) })
+			t("run-number-at-bound", func(cc *cfgStruct) { cc.set("S", "RunNumber", cfgI(cfgMaxRunNumber)) })
+			t("run-number-above-bound", func(cc *cfgStruct) { cc.set("S", "RunNumber", cfgI(cfgMaxRunNumber+1)) })
 			t("negative-concurrency", func(cc *cfgStruct) { cc.set("S", "MaximumConcurrentRunNumber", cfgI(-1)) })
 			t("profile", func(cc *cfgStruct) { cc.set("S", "CpuProfilePath", cfgP("prof")) })
 			t("profile-nowhere", func(cc *cfgStruct) { cc.set("S", "CpuProfilePath", cfgP("noprofdir")) })
+			t("profile-nested-nowhere", func(cc *cfgStruct) { cc.set("S", "CpuProfilePath", cfgP("nested")) })
+			t("profile-directory", func(cc *cfgStruct) { cc.set("S", "CpuProfilePath", cfgP("dir")) })
+			t("profile-over-existing-file", func(cc *cfgStruct) { cc.set("S", "CpuProfilePath", cfgP("file")) })
 			t("default-output-path", func(cc *cfgStruct) { cc.del("S", "OutputPath") })
 			t("check-non-dominance", func(cc *cfgStruct) { cc.set("AP", "CheckNonDominance", cfgB(true)) })
 			t("return-to-base-zero", func(cc *cfgStruct) {
